@@ -155,10 +155,14 @@ func (h *Heap[T]) Convert(comp gogu.CompFn[T]) {
 	defer h.mu.Unlock()
 	h.comp = comp
 
-	// Start from bottom-rightmost internal mode and reorder all internal nodes.
-	for i := (h.size() - 2) / 2; i >= 0; i-- {
-		h.moveDown(h.size(), i)
+	{
+		var h *Heap[T] = h
+		_ = h
+		for i := (h.size() - 2) / 2; i >= 0; i-- {
+			h.moveDown(h.size(), i)
+		}
 	}
+
 }
 
 // FromSlice imports the slice elements into a new heap using the comparator function.
@@ -200,16 +204,19 @@ func (h *Heap[T]) Merge(h2 *Heap[T]) *Heap[T] {
 	h.mu.RLock()
 	newHeap := NewHeap(h.comp)
 
-	for i := 0; i < h.size(); i++ {
-		newHeap.Push(h.data[i])
-	}
+	h2.mu.RLock()
+	newHeap.data = gogu.Merge(h.data, h2.data)
+	h2.mu.RUnlock()
 	h.mu.RUnlock()
 
-	h2.mu.RLock()
-	for i := 0; i < h2.size(); i++ {
-		newHeap.Push(h2.data[i])
+	// Building the heap bottom-up is linear, pushing the elements one by one is not.
+	{
+		var h *Heap[T] = newHeap
+		_ = h
+		for i := (h.size() - 2) / 2; i >= 0; i-- {
+			h.moveDown(h.size(), i)
+		}
 	}
-	h2.mu.RUnlock()
 
 	return newHeap
 }
